@@ -425,6 +425,11 @@ impl<'a> Gen<'a> {
                 let e = self.scalar(scope, k, depth - 1);
                 let n = self.rng.below(4);
                 let mut list: Vec<X> = (0..n).map(|_| self.val_of(k)).collect();
+                if !list.is_empty() && self.rng.chance(1, 5) {
+                    // the same member twice in a row (a list is not a set)
+                    let dup = list[list.len() - 1].clone();
+                    list.push(dup);
+                }
                 if !self.cfg.exec && self.cfg.is(Dialect::Postgres) && self.rng.chance(1, 5) {
                     // enum casts as direct members of the list
                     list = list.into_iter().map(|v| X::AsEnum("mood".into(), b(v))).collect();
